@@ -99,6 +99,63 @@ PROPS = {
         assumptions=["dispatch and order of writes within a reconcile; the traffic effects of the cancellation tasks are C04's"],
         explanation="rollback/supersession dispatch theorems; dispatch clause evaluated on the real reconcile's result",
     ),
+    "C03": dict(
+        engines=[dict(name="rollouttr", quick=1200, thorough=60000, shard=400, trivial_tags=["no-network-write"]),
+                 dict(name="trafficmgr", quick=800, thorough=40000, shard=400, trivial_tags=["no-write"])],
+        rule="rollouttr: the rolloutsm generator (any spec/status/workload/BatchRelease combination, focused modes at the gates) with traffic routing through an nginx Ingress: "
+             "per-step strategies (weights, header match, none), stable Service pinned / unpinned / pinned elsewhere, canary Service absent / right / wrong selector, canary "
+             "Ingress absent / weight 0 / this step's / previous step's / another strategy, zero or 3 s grace, in-memory grace expectations pending or elapsed per action; one "
+             "real Reconcile through the hook with a client that logs every write; network state, write order and pending expectations compared with the model. trafficmgr: "
+             "sequences of 2-8 direct calls of DoTrafficRouting / FinalisingTrafficRouting / RestoreStableService / PatchStableService / RestoreGateway / RemoveCanaryService / "
+             "RouteAllTrafficToNewVersion on the real manager with the real Ingress provider, interleaved with time passing (hook ages the expectations) and process restarts "
+             "(expectations dropped); non-trivial = a network write happened; distinct = distinct input JSON",
+        trusted=["hooks VerifNewReconciler, VerifSetGraceSeconds, grace.VerifAge / VerifPending (build tag verif)",
+                 "the gateway is the nginx Ingress provider (its annotations are related to strategies by C14); the fake client stands for the API server"],
+        assumptions=["canary strategy over a CloneSet (partition style); other providers are covered at provider level by C13-C15, not in this reconcile model",
+                     "pods Ready is what the BatchRelease reports (C11 ties that to the workload); the lag between a report and the route write is not modelled"],
+        explanation="five theorems over all states of one reconcile / one manager call; the same clause booleans and the models are evaluated against the real reconciler and manager",
+    ),
+    "C04": dict(
+        translator=True,
+        engines=[dict(name="rollouttr", quick=1500, thorough=60000, shard=500, trivial_tags=["no-network-write"]),
+                 dict(name="trafficmgr", quick=800, thorough=40000, shard=400, trivial_tags=["no-write"])],
+        rule="the translator (go/ast) re-derives the finalising task orders from nextCanaryTask / nextBlueGreenTask and refuses any other shape of those functions; "
+             "rollouttr and trafficmgr generators as for C03; for C04 the relevant cases are the finalising phases (Finalising / Cancelling / Terminating / Disabling) with every "
+             "persisted cursor, every network state and every in-memory grace state: when the state satisfies the finalising invariant the state after the real reconcile must "
+             "satisfy it again; non-trivial = a network write happened; distinct = distinct input JSON",
+        trusted=["translator harness/translate/tasktables.go (go/parser, go/printer): maps the two switch statements to Coq lists and pins the lookup code textually",
+                 "hooks VerifNewReconciler, VerifSetGraceSeconds, grace.VerifAge / VerifPending (build tag verif)"],
+        assumptions=["canary strategy over a partition-style CloneSet with an nginx Ingress for the reconcile model; the blue-green order is covered by the order theorems only",
+                     "'pods of that revision exist' is represented by the BatchRelease / partition state (C01, C11), not by a pod model",
+                     "the exit reason does not change while the cursor is mid-sequence (known finding F31) and the workload exists (known finding F30)"],
+        explanation="order theorems by computation over the regenerated tables; an inductive invariant of the finalising phase proved over all histories with arbitrary "
+                    "restarts / time / failed status writes; the same invariant is checked on the real reconciler from generated states",
+    ),
+    "C06": dict(
+        translator=True,
+        engines=[dict(name="rollouttr", quick=1500, thorough=60000, shard=500, trivial_tags=["no-network-write"]),
+                 dict(name="trafficmgr", quick=800, thorough=40000, shard=400, trivial_tags=["no-write"])],
+        rule="as C04; crash points are represented as (any persisted state, any network state reachable as a prefix of a reconcile's writes, any in-memory grace state): the "
+             "generators draw the grace expectations independently of the persisted state (none / pending / elapsed per action) and the trafficmgr sequences contain explicit "
+             "process restarts and clock advances between real manager calls; non-trivial = a network write happened; distinct = distinct input JSON",
+        trusted=["hooks as C04", "a crash loses exactly the in-memory grace expectations and the reconcile in flight (informer caches are not modelled)"],
+        assumptions=["as C04; equality of the final state with an undisturbed run is shown as 'every finalising history ends clean', not as a confluence theorem",
+                     "API errors are modelled as 'the status write of that reconcile is lost'; errors in the middle of a provider call are not injected"],
+        explanation="the reconcile model takes the in-memory state as an arbitrary argument, so every theorem of C03-C05 already quantifies over every restart point; plus the "
+                    "history theorem with lost status writes and an idempotence theorem; clauses on the real reconciler and manager",
+    ),
+    "C05": dict(
+        engines=[dict(name="rollouttr", quick=1500, thorough=60000, shard=500, trivial_tags=["no-network-write"]),
+                 dict(name="rolloutsm", quick=1200, thorough=60000, shard=400, trivial_tags=["no-change", "status-not-written"])],
+        rule="rollouttr / rolloutsm generators (see C03 / C02): every phase incl. Terminating and Disabling, every finalising task as persisted cursor, workload present / absent / "
+             "with inconsistent status, BatchRelease present / resumed / completed / deleting / absent, network state arbitrary; one real Reconcile per case; non-trivial = the "
+             "reconcile changed something; distinct = distinct input JSON",
+        trusted=["hooks VerifNewReconciler, VerifSetGraceSeconds, grace.VerifAge / VerifPending (build tag verif)"],
+        assumptions=["canary strategy over a partition-style CloneSet with an nginx Ingress", "provider-level exact restore is C13-C15, workload release by the BatchRelease "
+                     "controller is C11, HPA handling (blue-green) is not modelled"],
+        explanation="per-reconcile theorems: a finalising task is passed only when its effect is in place; an exit is declared finished only when the BatchRelease is gone and "
+                    "the marker removed; the same booleans are evaluated on the real reconcile",
+    ),
     "C08": dict(
         engines=[dict(name="webhook", quick=1500, thorough=60000, shard=500, trivial_tags=[])],
         rule="seeded structured generator of admission requests: kind in {CloneSet, Advanced DaemonSet, Deployment, native/advanced StatefulSet, custom StatefulSet-like kind}, "
@@ -191,7 +248,7 @@ PROPS = {
     ),
 }
 
-HOOK_COMMITS = ["bf5febd", "cd696c4", "9ed478c"]
+HOOK_COMMITS = ["bf5febd", "cd696c4", "9ed478c", "e2da513"]
 NOT_APPLICABLE = []
 
 MANIFEST_TEXT = {
@@ -258,6 +315,46 @@ MANIFEST_TEXT = {
              "is gone. Tied to the real Reconcile by the rolloutsm engine; the dispatch clause is evaluated on the real result.",
         note="The effect of each cancellation task on Services and routes (traffic really back on stable) is C04's automaton; blue-green refusal of supersession is not modelled.",
         design_ref="DESIGN.md section 9, C10"),
+    "C03": dict(
+        text="Proof: for one Rollout reconcile with traffic routing and EVERY persisted status, workload, BatchRelease, network state and in-memory grace state: a route is written "
+             "only while rolling, in the traffic-routing state of the current step (which C02 shows is entered only after the BatchRelease for that step reported its pods Ready), "
+             "behind an already pinned stable Service and an existing canary Service, after the grace period, as the only network write of the pass; a step reported as routed "
+             "carries exactly its strategy on the gateway with both Services selecting the right revisions; the pass that lets the first step's pods be created leaves the stable "
+             "Service pinned. The reconcile model (RolloutSM + traffic manager) and the manager model are compared with the real reconciler / manager (real Ingress provider) on "
+             "generated states and call sequences on every run, write order included.",
+        note="Canary strategy over a partition-style CloneSet with an nginx Ingress; blue-green and the other providers are not in this reconcile model (their provider-level "
+             "behaviour is C13-C15). 'Every interleaving' is covered as 'every state a reconcile can start from'.",
+        design_ref="DESIGN.md section 9, C03"),
+    "C04": dict(
+        text="Proof: (1) the finalising orders are regenerated from the source by a go/ast translator on every run; over them it is proved by computation that in every exit "
+             "reason of both strategies routes are withdrawn before the canary Service is removed, the stable Service is un-pinned before the workload is resumed (on rollback: "
+             "the route is withdrawn before the new pods go), and every cleanup task occurs exactly once. (2) For the canary reconcile model an inductive invariant of the "
+             "finalising phase is proved over ALL histories -- any number of reconciles, each with an arbitrary workload / BatchRelease observation and arbitrary in-memory "
+             "grace state, failed status writes included: no route ever points at a missing canary Service and the phase ends with no route, no canary Service and an un-pinned "
+             "stable Service. (3) While rolling, the gateway is written only behind an existing canary Service and pinned stable Service, a no-traffic step deletes the canary "
+             "Service only after the route is gone, and a full partition step un-pins the stable Service first. The models are compared with the real reconciler and manager on "
+             "every run and the invariant is checked on the real reconciler from generated states.",
+        note="Known findings F30 (no workload: revision key unknown) and F31 (exit reason changes mid-sequence) are exactly the two hypotheses of the history theorem. Pod existence "
+             "is represented through BatchRelease / partition state; blue-green has order theorems only.",
+        design_ref="DESIGN.md section 9, C04"),
+    "C06": dict(
+        text="Partial proof. The reconcile and manager models take the in-memory grace state as an arbitrary argument and every theorem of C03, C04 and C05 quantifies over it and "
+             "over every persisted / network state, which is what a crash at any write leaves behind. Proved in addition: one finalising reconcile with a lost status write "
+             "keeps the invariant; such a reconcile makes at most one network write; every finalising history with arbitrary restarts, clock advances and lost status writes "
+             "ends clean; a completed gateway restore writes nothing when repeated. The real manager is run through call sequences with explicit restarts and clock advances, "
+             "the real reconciler from generated (state, grace-state) pairs.",
+        note="'Same final state as an undisturbed run' is shown as 'every history ends clean' (safety), not as confluence; faults inside the BatchRelease controller are C11's "
+             "per-reconcile theorems; informer-cache staleness and creation expectations are not modelled.",
+        design_ref="DESIGN.md section 9, C06"),
+    "C05": dict(
+        text="Partial proof. Proved for every persisted state of one reconcile: doCanaryFinalising moves its cursor past RestoreStableService / RouteTrafficToStable / "
+             "RemoveCanaryService only when the stable Service is un-pinned / the canary route withdrawn / the canary Service gone after that reconcile's writes; the three manager "
+             "operations report completion only on a restored network; whichever exit (success, rollback, delete, disable) is declared finished only once the BatchRelease is gone "
+             "and the in-progress marker removed. The reconcile models are compared with the real reconciler on generated states (every phase, every finalising cursor) on every "
+             "run and the same booleans are evaluated on the real result. This check found F29 (delete while the workload status is inconsistent left the stable Service pinned).",
+        note="The end-to-end statement (final quiescent cluster equals the pre-rollout cluster) over whole histories, blue-green fields (minReadySeconds, maxSurge, HPA) and the "
+             "other workload kinds are not modelled: the claim is the per-reconcile core plus C11 (workload released) and C13-C15 (provider restores exactly).",
+        design_ref="DESIGN.md section 9, C05"),
     "C08": dict(
         text="Proof: Properties/C08.v states for EVERY admission request (any kind, any old/new pair, any list of Rollouts and ReplicaSets, any webhook selection) that the model of "
              "WorkloadHandler.Handle / UnifiedWorkloadHandler.Handle holds a release change of a running, selected workload with an active matching Rollout (paused / partition 100% / "
